@@ -25,6 +25,13 @@ pub fn verify_oods<Layout: LayoutTrait>(
     trace_domain_size: &Felt,
     trace_generator: &Felt,
 ) -> Result<(), OodsVerifyError> {
+    // One value per mask item plus one per composition column: anything else would decouple the
+    // values checked here (the last two) from the ones the DEEP quotient opens (fixed positions).
+    let expected_len = Layout::MASK_SIZE + Layout::CONSTRAINT_DEGREE;
+    if oods.len() != expected_len {
+        return Err(OodsVerifyError::InvalidLength { expected: expected_len, actual: oods.len() });
+    }
+
     let composition_from_trace = Layout::eval_composition_polynomial(
         interaction_elements,
         public_input,
@@ -56,6 +63,8 @@ use thiserror::Error;
 pub enum OodsVerifyError {
     #[error("oods invalid {expected} - {actual}")]
     EvaluationInvalid { expected: Felt, actual: Felt },
+    #[error("invalid number of oods values: expected {expected}, actual {actual}")]
+    InvalidLength { expected: usize, actual: usize },
     #[error("CompositionPolyEval Error")]
     CompositionPolyEvalError(#[from] CompositionPolyEvalError),
 }
@@ -68,6 +77,8 @@ use thiserror_no_std::Error;
 pub enum OodsVerifyError {
     #[error("oods invalid {expected} - {actual}")]
     EvaluationInvalid { expected: Felt, actual: Felt },
+    #[error("invalid number of oods values: expected {expected}, actual {actual}")]
+    InvalidLength { expected: usize, actual: usize },
     #[error("CompositionPolyEval Error")]
     CompositionPolyEvalError(#[from] CompositionPolyEvalError),
 }
